@@ -49,7 +49,7 @@ TReset == /\ IsEv("Reset")
           /\ cur' = NoBlock /\ pc' = "idle" /\ asBest' = FALSE /\ finTo' = NoBlock
           /\ obs' = [r \in Readers |-> NoBlock] /\ lastFin' = [r \in Readers |-> Ev.g]
           /\ fail' = [r \in Readers |-> FALSE] /\ finBack' = [r \in Readers |-> FALSE]
-          /\ nxt' = [r \in Readers |-> [hdr |-> NoBlock, st |-> NoBlock]]
+          /\ nxt' = [r \in Readers |-> NoBlock] /\ torn' = [r \in Readers |-> FALSE]
           /\ pend' = NoPend /\ pendF' = NoPend
 
 \* ---- importer: logged steps
@@ -84,7 +84,7 @@ TOE == /\ IsEv("OE") /\ Ev.b \in pend[Ev.r]
        /\ obs' = [obs EXCEPT ![Ev.r] = Ev.b]
        /\ fail' = [fail EXCEPT ![Ev.r] = @ \/ ~CompleteOn(Ev.b, Sample(Ev.b))]
        /\ pend' = [pend EXCEPT ![Ev.r] = {}]
-       /\ UNCHANGED <<durable, memory, importer, lastFin, finBack, nxt, pendF>>
+       /\ UNCHANGED <<durable, memory, importer, lastFin, finBack, nxt, torn, pendF>>
 TRD == /\ IsEv("RD") /\ obs[Ev.r] = Ev.b
        /\ Ev.ok = ReadOK(Ev.k, Ev.b, Ev.n)
        /\ (Ev.k = "anc" /\ Ev.ok => Ev.got = AncAt(Ev.b, Ev.n))
@@ -92,9 +92,9 @@ TRD == /\ IsEv("RD") /\ obs[Ev.r] = Ev.b
             \* revision "next": OE carried the parent of the mocked header (first and only load of best); the logged
             \* outcome says whether the state handed out hashes to that header's state root. The specification's
             \* NextHeader/NextState pair derives both from the one capture, so the outcome must be TRUE.
-            [] Ev.k = "next" -> /\ nxt' = [nxt EXCEPT ![Ev.r] = [hdr |-> Ev.b, st |-> Ev.b]]
+            [] Ev.k = "next" -> /\ nxt[Ev.r] = NoBlock /\ ~NextTwoLoads
                                 /\ fail' = [fail EXCEPT ![Ev.r] = @ \/ ~StateAvail(Ev.b)]
-                                /\ UNCHANGED <<durable, memory, importer, obs, lastFin, finBack>>
+                                /\ UNCHANGED <<durable, memory, importer, obs, lastFin, finBack, nxt, torn>>
             [] OTHER -> Read(Ev.r, Ev.k, Ev.n)
        /\ UNCHANGED <<pend, pendF>>
 TFS == /\ IsEv("FS") /\ pendF' = [pendF EXCEPT ![Ev.r] = {mFin}] /\ UNCHANGED <<vars, pend>>
@@ -104,7 +104,7 @@ TFE == /\ IsEv("FE") /\ Ev.f \in pendF[Ev.r]
        /\ Ev.ok = (SummaryAvail(Ev.f) /\ StateAvail(Ev.f))
        /\ fail' = [fail EXCEPT ![Ev.r] = @ \/ ~Ev.ok]
        /\ pendF' = [pendF EXCEPT ![Ev.r] = {}]
-       /\ UNCHANGED <<durable, memory, importer, obs, nxt, pend>>
+       /\ UNCHANGED <<durable, memory, importer, obs, nxt, torn, pend>>
 
 Consume == l' = l + 1
 TNext == \/ /\ Consume
